@@ -56,4 +56,17 @@ PROPS = {
         ],
         "explanation": "integer/float/char/bool/unit/option conversions at the host boundary, full input domain",
     },
+    "C06": {
+        "units": ["glob"],
+        "trusted_base": COMMON_TB + [
+            "units/glob/prelude.rs: InternedString as a u32 newtype, FxHashMap/HashSet as exact finite map/set models (assumed contract of hashbrown), reduced SteelVal/ByteCodeLambda, Heap no-ops, visitor loop reduced to the Closure arm",
+            "the real steel-gen crate (OpCode) is compiled as is; the list of global-index opcodes is cross-checked textually against VmCore::vm every run",
+        ],
+        "assumptions": [
+            "the walk reaching every live closure through the other 35 value kinds (visitor completeness) is NOT covered",
+            "slot indices embedded in JIT-generated machine code, module tables and the engine-level trigger/rollback call sites are NOT covered",
+            "CALLPRIMITIVETAIL and READLOCALnCALLGLOBAL are outside the precondition: the compiler does not emit them in this revision (re-checked every run)",
+        ],
+        "explanation": "SymbolMap operations and the global-slot recycler's bytecode scan under contract; sequences bounded (maps/sets are loop-based models)",
+    },
 }
